@@ -281,6 +281,8 @@ func (w *worker) runSession() {
 		w.modeWrap()
 	case "overlap":
 		w.modeOverlap()
+	case "stall":
+		w.modeStall()
 	case "coldburst":
 		w.modeColdBurst()
 	case "rand":
@@ -1081,6 +1083,54 @@ func (w *worker) modeOverlap() {
 			}
 			c := simrt.Call{API: api, Idx: x, Input: w.c.In[x]}
 			spec := &simrt.RunSpec{Seed: uint64(k)*32 + uint64(d), Tasks: [][]simrt.Call{{c}, {c}}, Policy: simrt.Policy{Kind: "overlap", Depth: d, PoolMode: "lifo"}, Est: 2*w.c.Steps[api][x] + 64}
+			res := w.execRun(spec, nil, false)
+			if res == nil || !res.Parked {
+				break
+			}
+		}
+	}
+}
+
+// modeStall: long-stall sweep. Task 1 begins a call on X and is parked right
+// before its d-th synchronisation request; task 0 then makes 1200 calls on a
+// seeded, diverse sample of the corpus (enough to rotate generations, fill and
+// evict caches, republish tables, wrap small rings); then task 1 goes on with
+// whatever it had loaded before it was parked. d = 1, 2, ... until task 1
+// finishes first. A request goroutine descheduled for a long time (a GC pause,
+// a loaded machine) while traffic continues is exactly this. Index k in
+// [From,To) enumerates a seeded list of X (probes first) x {SQLi,XSS}.
+func (w *worker) modeStall() {
+	_, probes := HistLists(w.c)
+	var pool []int32
+	for i, f := range w.c.Flags {
+		if f&(common.FLong|common.FHuge) == 0 && len(w.c.In[i]) > 0 {
+			pool = append(pool, int32(i))
+		}
+	}
+	if len(probes) == 0 || len(pool) == 0 {
+		return
+	}
+	r := simrt.NewRNG(w.ses.Seed ^ 0x57a11)
+	for k := w.ses.From; k < w.ses.To && !w.stop; k++ {
+		api := uint8(k & 1)
+		x := probes[(k/2)%len(probes)]
+		if (k/2)/len(probes)%2 == 1 {
+			x = pool[r.Intn(len(pool))]
+		}
+		var traffic []simrt.Call
+		var est int64
+		for i := 0; i < 1200; i++ {
+			j := pool[r.Intn(len(pool))]
+			a := api
+			if k&2 != 0 && i&1 == 1 {
+				a = 1 - api // every other stall: mixed traffic on both detectors
+			}
+			traffic = append(traffic, simrt.Call{API: a, Idx: j, Input: w.c.In[j]})
+			est += w.c.Steps[a][j] + 1
+		}
+		for d := 1; d <= 12 && !w.stop; d++ {
+			c := simrt.Call{API: api, Idx: x, Input: w.c.In[x]}
+			spec := &simrt.RunSpec{Seed: uint64(k)*32 + uint64(d), Tasks: [][]simrt.Call{traffic, {c}}, Policy: simrt.Policy{Kind: "overlap", Depth: d, PoolMode: "lifo"}, Est: est + w.c.Steps[api][x] + 64}
 			res := w.execRun(spec, nil, false)
 			if res == nil || !res.Parked {
 				break
